@@ -191,6 +191,17 @@ class Gen:
             return any(self.uses(v, x) for v in q)
         return False
 
+    def lazily(self, gen):
+        self.lazy = getattr(self, "lazy", 0) + 1
+        try:
+            return gen()
+        finally:
+            self.lazy -= 1
+
+    def has_source(self, env) -> bool:
+        opened = getattr(self, "open_srcs", []) if self.strict else []
+        return any(t == "event" or (isinstance(t, tuple) and (t[0] == "obj" or (t[0] == "seqsrc" and json.dumps(t[1], sort_keys=True) not in opened))) for _, t in env)
+
     def has_var(self, q) -> bool:
         if isinstance(q, dict):
             return q.get("k") == "var" or any(self.has_var(v) for v in q.values())
@@ -207,6 +218,8 @@ class Gen:
         import copy
 
         r = self.rng
+        if not self.has_source(env):
+            return None
         s, et = self.seq(env, max(depth - 1, 0), "num")
         if et not in NUM:
             return None
@@ -215,7 +228,7 @@ class Gen:
         cnt = {"k": "Count", "s": copy.deepcopy(s)}
         fst = {"k": "First", "s": s}
         if r.random() < 0.4:
-            fst = {"k": "bin", "op": r.choice(["+", "-", "*"]), "a": fst, "b": self.leaf(env, "double")}
+            fst = {"k": "bin", "op": r.choice(["+", "-", "*"]), "a": fst, "b": self.lazily(lambda: self.leaf(env, "double"))}
         nonempty = r.choice([{"k": "cmp", "op": ">", "a": cnt, "b": {"k": "int", "v": 0}}, {"k": "cmp", "op": ">=", "a": cnt, "b": {"k": "int", "v": 1}}, {"k": "cmp", "op": "!=", "a": cnt, "b": {"k": "int", "v": 0}}])
         empty = {"k": "cmp", "op": "==", "a": cnt, "b": {"k": "int", "v": 0}}
         if ty == "bool":
@@ -240,14 +253,14 @@ class Gen:
             self.op("or")
             return {"k": "or", "a": empty, "b": test}
         self.op("if")
-        other = self.const("double") if r.random() < 0.7 else self.scalar(env, max(depth - 1, 0), "double")
+        other = self.const("double") if r.random() < 0.7 else self.lazily(lambda: self.scalar(env, max(depth - 1, 0), "double"))
         if r.random() < 0.25:
             # First() inside the TEST of the conditional (guarded by and / or), the conditional's value consumed by
             # an enclosing operator: the result variable must be visible where it is used
             tcmp = {"k": "cmp", "op": r.choice(["<", ">", ">="]), "a": fst, "b": self.const(r.choice(NUM))}
             test = r.choice([{"k": "and", "a": nonempty, "b": tcmp}, {"k": "or", "a": empty, "b": tcmp}, tcmp, tcmp])  # (unguarded: the query itself fails on an empty sequence)
             self.op(test["k"] if test["k"] != "cmp" else "cmp")
-            cond = {"k": "if", "c": test, "a": self.leaf(env, "double"), "b": other}
+            cond = {"k": "if", "c": test, "a": self.lazily(lambda: self.leaf(env, "double")), "b": other}
             if r.random() < 0.5:
                 self.op("fn")
                 return {"k": "fn", "f": "fabs", "args": [cond]}
@@ -406,6 +419,12 @@ class Gen:
         r = self.rng
         objs = self.objs_in(env)
         nums = [(n, t) for n, t in env if t == ty] + ([(n, t) for n, t in env if t == "int"] if ty == "double" else [])
+        if getattr(self, "lazy", 0) > 0:
+            # inside an arm of a conditional / a later operand of and-or: a variable bound to the VALUE of an earlier
+            # projection is computed by the generated code only where it is used, while the reference maps the
+            # projection over every element — if that projection can fail (First, index) the two differ in laziness
+            # in a way the property does not fix; such variables are used in unconditional positions only
+            nums = []
         opts = []
         if objs:
             opts += ["meth"] * 4
@@ -423,6 +442,14 @@ class Gen:
         return self.const(ty)
 
     def scalar(self, env, depth, ty):
+        try:
+            return self._scalar(env, depth, ty)
+        except ValueError as e:
+            if "no sequence source" not in str(e):
+                raise
+            return self.leaf(env, ty)  # nothing to range over here (every source is already being traversed)
+
+    def _scalar(self, env, depth, ty):
         r = self.rng
         if depth <= 0 or r.random() < 0.25:
             return self.leaf(env, ty)
@@ -446,8 +473,8 @@ class Gen:
                 self.op(c)
                 if r.random() < 0.3:
                     self.op(c)
-                    return {"k": c, "flat": True, "a": {"k": c, "a": self.scalar(env, depth - 1, "bool"), "b": self.scalar(env, depth - 1, "bool")}, "b": self.scalar(env, depth - 1, "bool")}
-                return {"k": c, "a": self.scalar(env, depth - 1, "bool"), "b": self.scalar(env, depth - 1, "bool")}
+                    return {"k": c, "flat": True, "a": {"k": c, "a": self.scalar(env, depth - 1, "bool"), "b": self.lazily(lambda: self.scalar(env, depth - 1, "bool"))}, "b": self.lazily(lambda: self.scalar(env, depth - 1, "bool"))}
+                return {"k": c, "a": self.scalar(env, depth - 1, "bool"), "b": self.lazily(lambda: self.scalar(env, depth - 1, "bool"))}
             if c == "not":
                 self.op("not")
                 return {"k": "not", "a": self.scalar(env, depth - 1, "bool")}
@@ -474,6 +501,8 @@ class Gen:
             form = r.choice(["sq", "sq", "neg_count", "two_neg"])
             if form == "sq":
                 return {"k": "bin", "op": "**", "a": self.scalar(env, depth - 1, r.choice(NUM)), "b": {"k": "int", "v": r.choice([2, 3])}}
+            if not self.has_source(env):
+                return {"k": "bin", "op": "**", "a": self.scalar(env, depth - 1, r.choice(NUM)), "b": {"k": "int", "v": 2}}
             sq, _ = self.seq(env, max(depth - 1, 0))
             self.op("Count")
             if form == "neg_count":  # an int base that is never 0, a negative int exponent: a fraction in Python
@@ -531,7 +560,7 @@ class Gen:
             if ty != "double":
                 return self.leaf(env, ty)
             self.op("if")
-            return {"k": "if", "c": self.scalar(env, depth - 1, "bool"), "a": self.scalar(env, depth - 1, r.choice(NUM)), "b": self.scalar(env, depth - 1, r.choice(NUM))}
+            return {"k": "if", "c": self.scalar(env, depth - 1, "bool"), "a": self.lazily(lambda: self.scalar(env, depth - 1, r.choice(NUM))), "b": self.lazily(lambda: self.scalar(env, depth - 1, r.choice(NUM)))}
         if c == "userfn":
             # the user function of the synthetic metadata, often twice in one expression (two snippet blocks side by side)
             self.op("userfn")
